@@ -254,10 +254,11 @@ def proxAvgWeights (N : α) (alphas : Option (List α)) (n : Nat) : List α :=
     let s := al.foldl (· + ·) 0      -- python `sum(alpha_list)`: left fold from 0
     if isZero (s - 1) then al else al.map (fun a => a / s)
 
-/-- `ProximalAverage.__call__`: `sum(filter(not isinf, [alpha_i * f_i(x)]))` (python `sum`: left fold from 0) -/
+/-- `ProximalAverage.__call__` (after ba347d8): `vals = [alpha_i * f_i(x)]`; with `no_inf_eval` every
+    infinite entry is replaced by `0.0` (`snp.where(snp.isinf(val), 0.0, val)`); python `sum` (left fold from 0) -/
 def proxAvgEval (isInf : α → Bool) (noInf : Bool) (ws vals : List α) : α :=
   let t := List.zipWith (· * ·) ws vals
-  (if noInf then t.filter (fun a => !(isInf a)) else t).foldl (· + ·) 0
+  (if noInf then t.map (fun a => if isInf a then 0 else a) else t).foldl (· + ·) 0
 
 end ind
 
